@@ -197,4 +197,20 @@ PROPS = {
                  'for every crash point incl. every output-size limit.',
   'allowed_axioms': ['sig_not_dec', 'sig_forall_dec', 'functional_extensionality_dep', 'classic'],
  },
+ 'C20': {
+  'uses_generated': True,
+  'rule': 'pairs (A,B) of clustered archives written by the harness (1..40 tiles of 40..400 bytes, or 1..2 tiles of 1..4 bytes; shared contents as back references, run lengths; root-only or one leaf level, gzip/none) '
+          'where B is A with the first/last/a middle tile changed, tiles inserted at the front/end/middle, removed at the front/end/middle, all changed, many changed, or identical; block sizes 0/1/2/5 kB; '
+          'GOMAXPROCS 1/2/4/16; dry run or not; origin faults (no .sync file, Range ignored, connection cut inside a multi-range body). Each pair runs makesync and sync in a child process against a loopback origin that logs '
+          'every Range header. makeMultiRanges on range lists with header budgets 1..1048376 through the verif export. All cases non-trivial; distinct by case line',
+  'trusted_base': ['xxhash64 modelled as any hash function; the driver instantiates it with 60 bits of MD5; the convergence theorem carries the no-collision hypothesis for the compared byte strings',
+                   'net/http client and the loopback origin (http.ServeContent: single-range 206, multipart/byteranges in request order); mime/multipart',
+                   'file system: writes go to FILE.tmp, os.Rename is atomic; no fsync/power-loss reordering is modelled',
+                   'goroutine scheduling of the hash workers and download threads is not controlled: the model is the sequential diff, the theorems are order independent (membership), runs vary GOMAXPROCS',
+                   'tools/gotables table of the file-output calls of Sync must equal the one the model was written against'],
+  'assumptions': ['remote archives are chained (root at 127, metadata, leaves, tile data last) with header and root inside the first 16384 bytes',
+                  'both archives are clustered: every entry is new content at the end of the data or a back reference'],
+  'explanation': 'see Properties/C20.v: blocks tile the tile data (C20_blocks_partition), sync of any local archive yields the remote file (C20_converges), equal archives want nothing (C20_equal_no_download), '
+                 'dry runs write nothing, batching keeps the ranges, every crash point leaves the old archive or the complete new file.',
+ },
 }
